@@ -1,6 +1,7 @@
 package main
 
 import (
+	"os"
 	"fmt"
 	"go/constant"
 	"go/types"
@@ -318,6 +319,54 @@ func (f *Frame) callContract(i *ssa.Call, g *ssa.Function, fc2 *FuncContract, ke
 		}
 	}
 	f.checkFnArgs(i, g, fc2, key, args, site, r)
+	// recursion: progress of the caller's termination measure at a call inside a recursive component
+	if os.Getenv("GOVC_DEBUG_SCC") != "" {
+		fmt.Fprintf(os.Stderr, "call %s -> %s fc=%v decr=%v rec=%v\n", c.key, key, f.fc != nil, f.fc != nil && f.fc.LoopDecr != nil, c.eng.recursive(c.key, key))
+	}
+	if f.fc != nil && f.fc.LoopDecr != nil && len(f.fc.LoopDecr.Exprs) == 1 {
+		var callees []string
+		if g != nil {
+			if c.eng.recursive(c.key, key) {
+				callees = []string{key}
+			}
+		} else {
+			for k, c2 := range c.eng.cs.Funcs {
+				if c2.Implements == key && c.eng.recursive(c.key, k) {
+					callees = append(callees, k)
+				}
+			}
+			sort.Strings(callees)
+		}
+		if len(callees) > 0 {
+			cur := f.evalCtx(st, r)
+			if cur.old != nil {
+				now, err1 := cur.eval(f.fc.LoopDecr.Exprs[0])
+				ent, err2 := cur.eval(&Expr{Op: "call", Name: "old", Args: []*Expr{f.fc.LoopDecr.Exprs[0]}})
+				if err1 != nil || err2 != nil {
+					c.errorf("recursion measure at call to %s: %v %v", key, err1, err2)
+				}
+				if err1 == nil && err2 == nil {
+					goal := "(and (<= 0 " + now.T + ") (< " + now.T + " " + ent.T + "))"
+					if ta := f.fc.TermAssume; ta != nil {
+						if a, err := cur.evalBool(ta.Expr); err == nil {
+							goal = "(=> " + a + " " + goal + ")"
+						}
+					}
+					for _, k := range callees {
+						if ob := f.oblige("rec-progress@"+site, nil, r, goal); ob != nil {
+							ob.Kind = "rec-progress"
+							ob.RecCallee = k
+							ob.Props = []string{"C18"}
+							ob.Clause = "progress before the recursive call: " + f.fc.LoopDecr.Text + " is smaller than at entry (may fail: see scan[C18:recursion])"
+						} else {
+							// same goal as an earlier call site: remember the edge on that obligation's record
+							c.recEdges = append(c.recEdges, [2]string{c.key, k})
+						}
+					}
+				}
+			}
+		}
+	}
 	// implicit: receiver non-nil
 	if g != nil && g.Signature.Recv() != nil && len(args) > 0 && !fc2.Nullable[g.Params[0].Name()] {
 		f.oblige("pre[nonnil]@"+site, nil, r, "(not (= "+args[0].T+" 0))")
